@@ -17,6 +17,21 @@ import re
 from extract import src, strip_comments, write, ExtractError, lean_list, fn_body
 
 
+# control-flow fingerprints of the functions the Lean model mirrors by hand (picked up by
+# extract._collect_plugins): a change of any of them is reported as a changed tie
+FINGERPRINTS = {
+    "sha1.c": ["SHA1_Transform", "crypto_SHA1_Init", "crypto_SHA1_Update", "crypto_SHA1_Final",
+               "crypto_SHA1", "host_to_be"],
+    "sha256.c": ["sha256_compress", "sha256_init", "sha256_process", "sha256_done", "sha256_hash"],
+    "sha512.c": ["sha512_compress", "sha512_init", "sha512_process", "sha512_done", "sha512_hash"],
+    "md5.c": ["MD5Transform", "MD5Init", "MD5Update", "MD5Final"],
+    "scram.c": ["crypto_HMAC"],
+    "crypto.c": ["digest_to_string", "digest_to_string_alloc", "xmpp_sha1", "xmpp_sha1_digest",
+                 "xmpp_sha1_new", "xmpp_sha1_update", "xmpp_sha1_final", "xmpp_sha1_to_string",
+                 "xmpp_sha1_to_string_alloc", "xmpp_sha1_to_digest"],
+}
+
+
 def _hex_list(vals, per=8, width=8):
     lines = []
     for i in range(0, len(vals), per):
